@@ -832,6 +832,8 @@ def run(chk):
 
     from verif import fallthrough
     fallthrough.run(chk, "C03", floor=2)
+    from verif import moved
+    moved.run(chk, "C03", r"^/repo/opm/input/eclipse/Schedule/", floor=95)
     from verif import argorder
     argorder.run(chk, "C03", floor=55)
 
